@@ -159,10 +159,10 @@ EXPORT errno_t _mbsrtowcs_s_chk(size_t *restrict retvalp,
                                                        (void *)dest, ESLEMAX);
                     return RCNEGATE(ESLEMAX);
                 } else {
-                    invoke_safe_str_constraint_handler(
-                        "mbsrtowcs_s"
-                        ": dmax/len exceeds destsz",
-                        (void *)dest, EOVERFLOW);
+                    handle_error((char *)(void *)dest, destbos,
+                                 "mbsrtowcs_s"
+                                 ": dmax/len exceeds destsz",
+                                 EOVERFLOW);
                     return RCNEGATE(EOVERFLOW);
                 }
             }
